@@ -425,8 +425,9 @@ class Check:
                   coverage=self.cov, assumptions=self.assumptions, wall_s=wall,
                   violations=len(self.violations))
         ev["coverage"]["known_findings_reproduced"] = self.known_hits
-        with open(os.path.join(VERIF, "evidence", self.pid + ".json"), "w") as f:
-            json.dump(ev, f, indent=1, sort_keys=True, default=str)
+        if not self.replay:   # a replay run re-executes one case; it is not evidence
+            with open(os.path.join(VERIF, "evidence", self.pid + ".json"), "w") as f:
+                json.dump(ev, f, indent=1, sort_keys=True, default=str)
         shutil.rmtree(self.work, ignore_errors=True)
         if self.violations:
             log("RESULT property=%s FAIL violations=%d wall=%.1fs" % (self.pid, len(self.violations), wall))
